@@ -61,8 +61,10 @@ func VerifC06Tick() {
 		vAssert(done == (a && e > cur && e != bad), "C06/tick-succeeds-iff-alphabet-and-epoch-grows-and-no-subscriber-refuses")
 		n, st, m := candidates()
 		vAssert(n == preN && st == preSt && m == preM, "C06/candidates-unchanged-by-tick")
+		if i == 0 {
+			vRequire(done, "tick-succeeded")
+		}
 		if done {
-			vCover("tick-succeeded")
 			cur = e
 			vAssert(readInt("netmap", "epoch") == e, "C06/epoch-is-the-argument")
 			vAssert(readInt("netmap", "lastEpochBlock") == h, "C06/tick-height-recorded")
